@@ -98,6 +98,43 @@ static std::string run_case(const Case &c, std::string &msg) {
     return "";
 }
 
+// tables with an area that ends exactly at 2^32: (a) a block write inside that area is an ordinary one; (b) a request that runs over the top of
+// the address space (addr + n > 2^32) names addresses that do not exist and must be refused without changing anything - also when the words
+// that would "wrap" to address 0 carry acceptable values
+static void top_area_phase() {
+    for (uint32_t topsize : {1u, 2u, 8u, 0x100u}) for (int big = 0; big < 2; big++) {
+        {
+            std::string rep = vp::fmt("top %u %d inside\n", topsize, big);
+            vp::CaseScope scope([&] { return rep; });
+            TopTable T(topsize, false, big);
+            if (register_init(&T.t).code != REG_INIT_SUCCESS) { vp::fail("top-area:init-refused", "a table whose last area ends at 2^32 (no registers in it) is refused", rep); continue; }
+            uint16_t w[2] = {0x1111, 0x2222}; uint32_t n = topsize < 2 ? 1 : 2;
+            RegisterAccess a = register_block_write(&T.t, T.areas[1].base, n, w);
+            vp::count(); vp::cls("top-area:write-inside");
+            if (a.code != REG_ACCESS_SUCCESS) {
+                if (vp::excluded("top-area:write-refused")) vp::stats().excluded++;
+                else vp::fail("top-area:write-refused", vp::fmt("block write [%u,+%u) into an area that ends at 2^32: %s at %u", T.areas[1].base, n, code_name(a.code), a.address), rep);
+            } else if (memcmp(T.top, w, n * 2) != 0) vp::fail("top-area:write-lost", "successful block write into the top area did not reach its storage", rep);
+        }
+        for (uint32_t k : {1u, 2u, 8u}) for (uint32_t j : {1u, 2u, 3u, 6u}) for (int good = 0; good < 2; good++) {
+            if (k > topsize) continue;
+            std::string rep = vp::fmt("top %u %d wrap %u %u %d\n", topsize, big, k, j, good);
+            vp::CaseScope scope([&] { return rep; });
+            TopTable T(topsize, false, big);
+            if (register_init(&T.t).code != REG_INIT_SUCCESS) continue;
+            std::vector<uint16_t> w(k + j, 0x3333);
+            // what would land on addresses 0, 1, 2.. if the request wrapped: acceptable (50, 60, 0, 0) or not (5, 300, 0x7fff, 0x7fff)
+            static const uint16_t GOOD[6] = {50, 60, 0, 0, 1, 2}, BAD[6] = {5, 300, 0x7fff, 0x7fff, 1, 2};
+            for (uint32_t i = 0; i < j && i < 6; i++) w[k + i] = good ? GOOD[i] : BAD[i];
+            uint16_t low0[8], top0[0x100]; memcpy(low0, T.low, sizeof low0); memcpy(top0, T.top, sizeof top0);
+            vp::Block buf((size_t)(k + j) * 2); memcpy(buf.p, w.data(), (size_t)(k + j) * 2);
+            RegisterAccess a = register_block_write(&T.t, (uint32_t)(0u - k), k + j, (RegisterAtom *)buf.p);
+            vp::count(); vp::cls("top-area:wrapping-write"); vp::nontrivial(vp::fnv(rep));
+            if (a.code == REG_ACCESS_SUCCESS) { vp::fail("top-area:wrapping-write-accepted", vp::fmt("block write [%u,+%u) runs over the top of the address space and was accepted%s", (uint32_t)(0u - k), k + j, T.low_invariant() ? "" : "; a constrained register at address 0.. now holds a value outside its constraint"), rep); continue; }
+            if (memcmp(low0, T.low, sizeof low0) != 0 || memcmp(top0, T.top, sizeof top0) != 0) vp::fail("top-area:refused-but-storage-changed", "refused wrapping block write changed storage", rep);
+        }
+    }
+}
 static void run() {
     auto &a = vp::args();
     vp::CaseScope scope([] { return ser_case(g_cur); });
@@ -106,6 +143,7 @@ static void run() {
                                "(current content; one overlapped register driven to its bound -1/0/+1 through the words inside the window only; non-finite halves for float registers; all-ones; "
                                "all-zero; random; the current content after one overlapped register was corrupted out of band), applied as a history (content evolves); oracle = overlay on the flat model + per-register decode/constraint + failure class with first address + "
                                "touched marks + exact-size caller buffer under ASan", ntables);
+    if (a.shard == 0) top_area_phase();
     vp::Rng rng(a.seed * 8191 + a.shard);
     FamilyOpts fo; fo.max_size = 8;
     FamilyOpts big; big.max_areas = 6; big.max_size = 20; big.max_regs = 12;   // thorough tier: every 8th table is a larger one
@@ -191,6 +229,7 @@ static void run() {
     }
 }
 static bool replay(const std::string &text) {
+    if (text.rfind("top ", 0) == 0) { top_area_phase(); return vp::stats().failures.empty(); }
     Case c; std::vector<std::string> rest;
     if (!rm::parse(text, c.t, rest)) return false;
     c.content.resize(c.t.areas.size());
